@@ -246,7 +246,7 @@ int main(void)
             if (!f) { printf("ERR\n"); fflush(stdout); continue; }
             nlog = 0; nev = 0; active = 0; ncalls = 0; fake_nw = fnw;
             yield_every = ((line[0] == 'B') && !strcmp(fl, "simple")) ? 0 : ye;   /* SPAWN_SIMPLE tasks may not yield */
-            alarm(30);
+            alarm(15);
             f(st, sp, cb, NULL);
             long act = active, nc = ncalls;
             alarm(0);
@@ -260,7 +260,7 @@ int main(void)
             sscanf(line + 1, "%31s %zu %zu %zu %zu %d %u %d", fl, &st, &sp, &incr, &chunk, &mode, &fnw, &ye);
             qt_loop_queue_type ty = !strcmp(fl, "chunk") ? CHUNK : !strcmp(fl, "guided") ? GUIDED : !strcmp(fl, "factored") ? FACTORED : TIMED;
             nlog = 0; nev = 0; active = 0; ncalls = 0; fake_nw = fnw; yield_every = ye;
-            alarm(30);
+            alarm(15);
             qqloop_handle_t *h = qt_loop_queue_create(ty, st, sp, incr, cb, NULL);
             if (chunk && (ty == CHUNK)) qt_loop_queue_setchunk(h, chunk);
             printf("K %zu\n", h->stat.chunksize);
